@@ -84,6 +84,10 @@ where
     let mut r#match = None;
     let mut len = 0;
 
+    // A multibyte character may be split across buffers, so the text is validated when the field
+    // is complete rather than buffer by buffer.
+    let mut dst_buf = std::mem::take(dst).into_bytes();
+
     loop {
         let src = reader.fill_buf()?;
 
@@ -99,13 +103,14 @@ where
             None => (src, src.len()),
         };
 
-        let s = str::from_utf8(buf).map_err(|e| io::Error::new(io::ErrorKind::InvalidData, e))?;
-        dst.push_str(s);
+        dst_buf.extend_from_slice(buf);
 
         len += n;
 
         reader.consume(n);
     }
+
+    *dst = String::from_utf8(dst_buf).map_err(|e| io::Error::new(io::ErrorKind::InvalidData, e))?;
 
     let is_eol = matches!(r#match, Some(LINE_FEED));
 
